@@ -108,6 +108,11 @@ func (m *CubicallyInterpolatedMapping) approximateInverseLog(x float64) float64 
 	d1 := 2*B*B*B - 9*A*B*C - 27*A*A*(x-exponent)
 	p := math.Cbrt((d1 - math.Sqrt(d1*d1-4*d0*d0*d0)) / 2)
 	significandPlusOne := -(B+p+d0/p)/(3*A) + 1
+	if significandPlusOne >= 2 {
+		// x is so close below an integer that the significand rounded up to 2
+		exponent++
+		significandPlusOne = 1
+	}
 	return buildFloat64(int(exponent), significandPlusOne)
 }
 
